@@ -114,6 +114,8 @@ type v6cfg struct {
 	clients  int
 	hostile  int
 	core     bool
+	focus    string // "dr": the decline / release / hostile-request / pool-cycling alphabet
+	legacy   bool   // without the symbols naming foreign / free / out-of-pool values and without pool cycling
 }
 
 type v6client struct {
@@ -125,7 +127,19 @@ type v6client struct {
 	xid      uint32
 }
 
+// v6over replaces what a message names in its IAs (hostile symbols): an address / prefix that is not the
+// client's own, and / or IAIDs the client never used.
+type v6over struct {
+	na     net.IP
+	pd     *net.IPNet
+	badIA  bool   // IAIDs 0xdead0001 / 0xdead0002 instead of 1 / 2
+	onlyNA bool   // the message carries no IA_PD
+	onlyPD bool   // the message carries no IA_NA
+	class  string // what the named values are (worst class over the IAs), for the observation counters
+}
+
 type v6world struct {
+	ov      *v6over
 	cfg     v6cfg
 	srv     *bng6.Server
 	sock    *sockPair
@@ -140,6 +154,8 @@ type v6world struct {
 	nAddr   int
 	nPfx    int
 	fresh   int
+	allNA   []string // every address of the pool ("na:..."), computed independently of the pool's own arithmetic
+	allPD   []string // every delegable prefix ("pd:...")
 }
 
 func v6factory(cfg v6cfg) factory {
@@ -179,10 +195,23 @@ func newV6World(cfg v6cfg, r *rand.Rand) *v6world {
 	if sc.AddressPool != "" {
 		w.addrNet = netip.MustParsePrefix(cfg.addrPool).Masked()
 		w.nAddr = 1<<(128-w.addrNet.Bits()) - 1
+		for a, i := w.addrNet.Addr().Next(), 0; i < w.nAddr; a, i = a.Next(), i+1 {
+			w.allNA = append(w.allNA, "na:"+a.String())
+		}
 	}
 	if sc.PrefixPool != "" {
 		w.pdNet = netip.MustParsePrefix(cfg.pdPool).Masked()
 		w.nPfx = 1 << (int(cfg.pdLen) - w.pdNet.Bits())
+		for i := 0; i < w.nPfx; i++ {
+			b := w.pdNet.Addr().As16()
+			for bit := 0; bit < int(cfg.pdLen)-w.pdNet.Bits(); bit++ { // index bit `bit` (from the right) sits at prefix bit pdLen-1-bit
+				if i&(1<<bit) != 0 {
+					pos := int(cfg.pdLen) - 1 - bit
+					b[pos/8] |= 1 << (7 - pos%8)
+				}
+			}
+			w.allPD = append(w.allPD, "pd:"+netip.PrefixFrom(netip.AddrFrom16(b), int(cfg.pdLen)).String())
+		}
 	}
 	w.m = newMon("v6", "v6/"+cfg.name, v6Valid*time.Second, w.classify)
 	for i := 0; i < cfg.clients; i++ {
@@ -197,14 +226,21 @@ func (w *v6world) newClient(name string, id byte) *v6client {
 	return &v6client{name: name, duid: du, key: string(du.ToBytes())}
 }
 
+// freshClient is a client the server has never seen (pool cycling and the final drain): F1, F2, ...
+func (w *v6world) freshClient() *v6client {
+	w.fresh++
+	du := &d6.DUIDLL{HWType: iana.HWTypeEthernet, LinkLayerAddr: net.HardwareAddr{0x02, 0xc0, 0x06, 1, byte(w.fresh >> 8), byte(w.fresh)}}
+	return &v6client{name: fmt.Sprintf("F%d", w.fresh), duid: du, key: string(du.ToBytes())}
+}
+
 func (w *v6world) clientName(key string) string {
 	for _, c := range w.clients {
 		if c.key == key {
 			return c.name
 		}
 	}
-	if len(key) == 10 && key[9] >= 100 {
-		return fmt.Sprintf("F%d", int(key[9])-100)
+	if len(key) == 10 && key[7] == 1 {
+		return fmt.Sprintf("F%d", int(key[8])<<8|int(key[9]))
 	}
 	return fmt.Sprintf("%x", key)
 }
@@ -267,9 +303,18 @@ func (w *v6world) kinds() []string {
 }
 
 func (w *v6world) buildSyms() {
-	coreSyms := map[string]bool{"SOLICIT": true, "REQUEST": true, "RENEW": true, "RELEASE": true, "DECLINE": true, "SOLICIT-RC": true, "valid+1ns": true, "valid/2": true}
+	coreSyms := map[string]bool{"SOLICIT": true, "REQUEST": true, "RENEW": true, "RELEASE": true, "DECLINE": true, "SOLICIT-RC": true, "valid+1ns": true, "valid/2": true,
+		"DECLINE-FOREIGN": true}
+	drSyms := map[string]bool{"SOLICIT": true, "REQUEST": true, "RELEASE": true, "DECLINE": true, "valid+1ns": true,
+		"DECLINE-FOREIGN": true, "DECLINE-OFFERED": true, "DECLINE-FREE": true, "RELEASE-FOREIGN": true, "RELEASE-OFFERED": true, "RELEASE-BADIAID": true,
+		"REQUEST-FOREIGN": true, "CYCLE-SRR": true, "CYCLE-RC": true}
+	legacy := map[string]bool{"DECLINE-": true, "RELEASE-": true, "REQUEST-FOREIGN": true, "CYCLE-": true}
 	add := func(name string, weight int, fn func() bool) {
-		if w.cfg.core && !coreSyms[name[strings.Index(name, ":")+1:]] {
+		base := name[strings.Index(name, ":")+1:]
+		if (w.cfg.core && !coreSyms[base]) || (w.cfg.focus == "dr" && !drSyms[base]) {
+			return
+		}
+		if i := strings.Index(base, "-"); w.cfg.legacy && (legacy[base] || (i > 0 && legacy[base[:i+1]])) {
 			return
 		}
 		w.syms = append(w.syms, v4sym{name, weight, fn})
@@ -284,12 +329,14 @@ func (w *v6world) buildSyms() {
 		add(c.name+":REBIND", 3, func() bool { return w.msg(c, "REBIND", d6.MessageTypeRebind, nil, false) })
 		add(c.name+":CONFIRM", 2, func() bool { return w.msg(c, "CONFIRM", d6.MessageTypeConfirm, nil, false) })
 		add(c.name+":RELEASE", 6, func() bool { return w.msg(c, "RELEASE", d6.MessageTypeRelease, w.sid, false) })
-		add(c.name+":DECLINE", 3, func() bool {
-			if c.lastAddr == nil {
-				return false
-			}
-			return w.msg(c, "DECLINE", d6.MessageTypeDecline, w.sid, false)
-		})
+		if w.cfg.mode != "pd" { // a Decline names addresses only
+			add(c.name+":DECLINE", 3, func() bool {
+				if c.lastAddr == nil {
+					return false
+				}
+				return w.msg(c, "DECLINE", d6.MessageTypeDecline, w.sid, false)
+			})
+		}
 		if i >= w.cfg.hostile {
 			continue
 		}
@@ -314,9 +361,194 @@ func (w *v6world) buildSyms() {
 			}
 			return ok
 		})
+		// DECLINE / RELEASE / REQUEST naming values that are not the client's own: leased to another client,
+		// advertised but not yet bound to another client, free, outside the pools; and the client's own values
+		// under IAIDs it never used
+		type tgt struct {
+			name string
+			pick func() *v6over
+		}
+		tgts := []tgt{
+			{"FOREIGN", func() *v6over { return w.otherValues(c, w.m.bound) }},
+			{"OFFERED", func() *v6over { return w.otherValues(c, w.m.offered) }},
+			{"FREE", w.freeValues},
+			{"OUTSIDE", func() *v6over {
+				_, n, _ := net.ParseCIDR("2001:db8:ffff::/48")
+				return &v6over{na: net.ParseIP("2001:db8:ffff::7"), pd: n}
+			}},
+			{"BADIAID", func() *v6over {
+				if c.lastAddr == nil && c.lastPfx == nil {
+					return nil
+				}
+				return &v6over{badIA: true}
+			}},
+		}
+		for _, tg := range tgts {
+			tg := tg
+			if w.cfg.mode != "pd" {
+				add(c.name+":DECLINE-"+tg.name, 1, func() bool {
+					o := tg.pick()
+					if o == nil || (o.na == nil && !o.badIA) || (o.badIA && c.lastAddr == nil) {
+						return false
+					}
+					w.ov = o
+					return w.msg(c, "DECLINE-"+tg.name, d6.MessageTypeDecline, w.sid, false)
+				})
+			}
+			add(c.name+":RELEASE-"+tg.name, 1, func() bool {
+				o := tg.pick()
+				if o == nil {
+					return false
+				}
+				w.ov = o
+				return w.msg(c, "RELEASE-"+tg.name, d6.MessageTypeRelease, w.sid, false)
+			})
+		}
+		add(c.name+":REQUEST-FOREIGN", 2, func() bool {
+			o := w.otherValues(c, w.m.bound)
+			if o == nil {
+				o = w.otherValues(c, w.m.offered)
+			}
+			if o == nil {
+				return false
+			}
+			// a binding message carries all IAs of the client, as a real client's does (the server keeps one
+			// lifetime per client: a Reply that renewed one IA only would keep the other reserved beyond the
+			// lifetime the client was told, which is safe and not what this symbol is about)
+			o.onlyNA, o.onlyPD = false, false
+			w.ov = o
+			return w.msg(c, "REQUEST-FOREIGN", d6.MessageTypeRequest, w.sid, false)
+		})
 	}
+	// pool cycling: fresh clients ask until the server has nothing left, then give everything back
+	add("X:CYCLE-SRR", 3, func() bool { return w.cycle("X:CYCLE-SRR", false) })
+	add("X:CYCLE-RC", 1, func() bool { return w.cycle("X:CYCLE-RC", true) })
 	add("T:valid/2", 4, func() bool { return w.step("T:valid/2", v6Valid*time.Second/2) })
 	add("T:valid+1ns", 4, func() bool { return w.step("T:valid+1ns", v6Valid*time.Second+1) })
+}
+
+// choose picks one candidate: the lowest in the exhaustive part, a random one in random walks.
+func (w *v6world) choose(cands []string) string {
+	if len(cands) == 0 {
+		return ""
+	}
+	sort.Strings(cands)
+	if w.rng != nil {
+		return cands[w.rng.IntN(len(cands))]
+	}
+	return cands[0]
+}
+
+// over builds the override naming the given "na:..." / "pd:..." values ("" = keep the client's own).
+func over(na, pd string) *v6over {
+	if na == "" && pd == "" {
+		return nil
+	}
+	o := &v6over{}
+	if na != "" {
+		o.na = net.ParseIP(na[3:])
+	}
+	if pd != "" {
+		_, o.pd, _ = net.ParseCIDR(pd[3:])
+	}
+	return o
+}
+
+// otherValues: an address and / or prefix that table t (bound / offered) says belongs, unexpired, to a
+// client other than c. Where only one kind has such a value the message carries that IA only.
+func (w *v6world) otherValues(c *v6client, t map[string]map[string]bind) *v6over {
+	now := time.Now()
+	var nas, pds []string
+	for d, ks := range t {
+		if d == c.name {
+			continue
+		}
+		for k, b := range ks {
+			if !now.Before(b.exp) {
+				continue
+			}
+			if k == "na" {
+				nas = append(nas, b.v)
+			} else {
+				pds = append(pds, b.v)
+			}
+		}
+	}
+	o := over(w.choose(nas), w.choose(pds))
+	if o != nil {
+		o.onlyNA, o.onlyPD = o.pd == nil, o.na == nil
+	}
+	return o
+}
+
+// freeValues: an address and / or prefix of the pools that nobody holds, is offered or has declined.
+func (w *v6world) freeValues() *v6over {
+	now := time.Now()
+	var nas, pds []string
+	for _, v := range w.allNA {
+		if w.m.isFree(v, now) {
+			nas = append(nas, v)
+		}
+	}
+	for _, v := range w.allPD {
+		if w.m.isFree(v, now) {
+			pds = append(pds, v)
+		}
+	}
+	o := over(w.choose(nas), w.choose(pds))
+	if o != nil {
+		o.onlyNA, o.onlyPD = o.pd == nil, o.na == nil
+	}
+	return o
+}
+
+// cycle: k fresh clients SOLICIT + REQUEST (or SOLICIT with rapid commit) until the server has nothing left
+// for a new client - k is at most the size of the larger pool plus one, so every position of both free
+// lists is visited - and then RELEASE what they got (in random order in random walks). A fresh client
+// that was only advertised a value cannot give it back (the server keeps no lease for it), so every
+// fresh client binds before it releases.
+func (w *v6world) cycle(name string, rapid bool) bool {
+	w.m.log("%s", name)
+	var got []*v6client
+	exhausted := false
+	for i := 0; i <= max(w.nAddr, w.nPfx) && i < 40; i++ {
+		c := w.freshClient()
+		if rapid {
+			w.msg(c, "SOLICIT-RC", d6.MessageTypeSolicit, nil, true)
+			w.m.endStep()
+		} else {
+			w.msg(c, "SOLICIT", d6.MessageTypeSolicit, w.sid, false)
+			w.m.endStep()
+		}
+		if c.lastAddr == nil && c.lastPfx == nil {
+			exhausted = true
+			break
+		}
+		got = append(got, c)
+		if !rapid {
+			w.msg(c, "REQUEST", d6.MessageTypeRequest, w.sid, false)
+			w.m.endStep()
+		}
+	}
+	mode := "solicit-request"
+	if rapid {
+		mode = "rapid-commit"
+	}
+	if exhausted && len(got) > 0 {
+		w.m.cycled(mode, len(got))
+	} else if exhausted {
+		w.m.count("cycles_on_an_exhausted_pool", 1)
+	} else {
+		w.m.count("cycles_not_reaching_exhaustion", 1)
+	}
+	if w.rng != nil {
+		w.rng.Shuffle(len(got), func(i, j int) { got[i], got[j] = got[j], got[i] })
+	}
+	for _, c := range got {
+		w.msg(c, "RELEASE", d6.MessageTypeRelease, w.sid, false)
+		w.m.endStep()
+	}
+	return true
 }
 
 // msg sends one client message through the real handler and judges the reply.
@@ -333,24 +565,56 @@ func (w *v6world) msg(c *v6client, name string, mt d6.MessageType, sid d6.DUID, 
 	}
 	m.AddOption(d6.OptElapsedTime(0))
 	asked := ""
+	ov := w.ov
+	w.ov = nil
+	if ov == nil {
+		ov = &v6over{}
+	}
+	hostile := ov.na != nil || ov.pd != nil || ov.badIA // the IAs do not simply restate what the client was given
+	namedNA, namedPD := c.lastAddr, c.lastPfx
+	if ov.na != nil {
+		namedNA = ov.na
+	}
+	if ov.pd != nil {
+		namedPD = ov.pd
+	}
+	iaNA, iaPD := [4]byte{0, 0, 0, 1}, [4]byte{0, 0, 0, 2}
+	if ov.badIA {
+		iaNA, iaPD = [4]byte{0xde, 0xad, 0, 1}, [4]byte{0xde, 0xad, 0, 2}
+	}
 	for _, k := range w.kinds() {
 		if mt == d6.MessageTypeDecline && k == "pd" {
 			continue // prefixes are not declined
 		}
+		if (k == "na" && ov.onlyPD) || (k == "pd" && ov.onlyNA) {
+			continue
+		}
 		if k == "na" {
-			ia := &d6.OptIANA{IaId: [4]byte{0, 0, 0, 1}}
-			if c.lastAddr != nil && mt != d6.MessageTypeSolicit {
-				ia.Options.Add(&d6.OptIAAddress{IPv6Addr: c.lastAddr, PreferredLifetime: v6Preferred * time.Second, ValidLifetime: v6Valid * time.Second})
-				asked += " na:" + c.lastAddr.String()
+			ia := &d6.OptIANA{IaId: iaNA}
+			if namedNA != nil && mt != d6.MessageTypeSolicit {
+				ia.Options.Add(&d6.OptIAAddress{IPv6Addr: namedNA, PreferredLifetime: v6Preferred * time.Second, ValidLifetime: v6Valid * time.Second})
+				asked += " na:" + namedNA.String()
 			}
 			m.AddOption(ia)
 		} else {
-			ia := &d6.OptIAPD{IaId: [4]byte{0, 0, 0, 2}}
-			if c.lastPfx != nil && mt != d6.MessageTypeSolicit {
-				ia.Options.Add(&d6.OptIAPrefix{Prefix: c.lastPfx, PreferredLifetime: v6Preferred * time.Second, ValidLifetime: v6Valid * time.Second})
-				asked += " pd:" + c.lastPfx.String()
+			ia := &d6.OptIAPD{IaId: iaPD}
+			if namedPD != nil && mt != d6.MessageTypeSolicit {
+				ia.Options.Add(&d6.OptIAPrefix{Prefix: namedPD, PreferredLifetime: v6Preferred * time.Second, ValidLifetime: v6Valid * time.Second})
+				asked += " pd:" + namedPD.String()
 			}
 			m.AddOption(ia)
+		}
+	}
+	// what the message names, by class (reference table only)
+	if mt != d6.MessageTypeSolicit {
+		base := map[d6.MessageType]string{d6.MessageTypeRequest: "REQUEST", d6.MessageTypeRenew: "RENEW", d6.MessageTypeRebind: "REBIND",
+			d6.MessageTypeConfirm: "CONFIRM", d6.MessageTypeRelease: "RELEASE", d6.MessageTypeDecline: "DECLINE"}[mt]
+		for _, v := range strings.Fields(asked) {
+			cls := w.m.nameClass(c.name, v[:2], v, now)
+			if ov.badIA {
+				cls = "unknown-iaid-" + cls
+			}
+			w.m.named(base, cls, mt == d6.MessageTypeRelease || mt == d6.MessageTypeDecline || cls == "leased-to-other" || cls == "offered-to-other" || cls == "declined")
 		}
 	}
 	binding := mt == d6.MessageTypeRequest || mt == d6.MessageTypeRenew || mt == d6.MessageTypeRebind
@@ -369,9 +633,15 @@ func (w *v6world) msg(c *v6client, name string, mt d6.MessageType, sid d6.DUID, 
 			}
 		}
 	}
+	heldBefore := map[string]string{} // the client's unexpired bindings before the message (reference table)
+	for _, k := range w.kinds() {
+		if v, ok := w.m.heldUnexpired(c.name, k, now); ok {
+			heldBefore[k] = v
+		}
+	}
 	// what the client holds right now (judged for "renewal answered with the same value")
 	held := map[string]string{}
-	if binding && rightSID {
+	if binding && rightSID && !hostile {
 		for _, k := range w.kinds() {
 			if v, ok := w.m.heldUnexpired(c.name, k, now); ok {
 				held[k] = v
@@ -451,19 +721,27 @@ func (w *v6world) msg(c *v6client, name string, mt d6.MessageType, sid d6.DUID, 
 		case rep.MessageType == d6.MessageTypeReply && (mt == d6.MessageTypeRelease):
 			for _, k := range w.kinds() {
 				own := false
-				if b, ok := w.m.get(w.m.bound, c.name, k); ok {
-					own = strings.Contains(asked, b.v)
+				if b, ok := w.m.get(w.m.bound, c.name, k); ok && !ov.badIA {
+					own = hasField(asked, b.v)
 				}
-				w.m.onRelease(c.name, k, own, now)
+				w.m.onRelease(c.name, k, own, now, w.serverLease(c, k) != "" && w.serverLease(c, k) == heldBefore[k])
 				if own {
 					w.m.count("releases_of_own_binding", 1)
 				}
 			}
 		case rep.MessageType == d6.MessageTypeReply && mt == d6.MessageTypeDecline:
 			before := len(w.m.declined)
-			if c.lastAddr != nil {
-				w.m.onDecline(c.name, "na", "na:"+c.lastAddr.String(), now)
-				c.lastAddr = nil
+			if namedNA != nil && !ov.onlyPD {
+				if ov.badIA {
+					// an IA the server never gave this client: it may ignore the message or act on the address;
+					// nothing is required (like a DECLINE of a value the client was never given)
+					w.m.onDecline(c.name, "na", "na:unknown-iaid", now, w.serverLease(c, "na") != "" && w.serverLease(c, "na") == heldBefore["na"])
+				} else {
+					w.m.onDecline(c.name, "na", "na:"+namedNA.String(), now, w.serverLease(c, "na") != "" && w.serverLease(c, "na") == heldBefore["na"])
+				}
+				if c.lastAddr != nil && c.lastAddr.Equal(namedNA) {
+					c.lastAddr = nil
+				}
 			}
 			if len(w.m.declined) > before {
 				w.m.count("declines_of_own_value", 1)
@@ -492,6 +770,32 @@ func (w *v6world) msg(c *v6client, name string, mt d6.MessageType, sid d6.DUID, 
 	return true
 }
 
+// serverLease returns the value ("na:..." / "pd:...") of kind k in the lease the server's table carries for c ("" if none).
+func (w *v6world) serverLease(c *v6client, k string) string {
+	for _, l := range w.srv.VerifC02Leases() {
+		if l.DUID != c.key {
+			continue
+		}
+		if k == "na" && l.Address != nil {
+			return "na:" + l.Address.String()
+		}
+		if k == "pd" && l.Prefix != "" {
+			return "pd:" + l.Prefix
+		}
+	}
+	return ""
+}
+
+// hasField: v is one of the space-separated fields of s.
+func hasField(s, v string) bool {
+	for _, f := range strings.Fields(s) {
+		if f == v {
+			return true
+		}
+	}
+	return false
+}
+
 func (w *v6world) remember(c *v6client, k, v string) {
 	if k == "na" {
 		c.lastAddr = net.ParseIP(v[3:])
@@ -517,21 +821,24 @@ func (w *v6world) finish() {
 	now := time.Now()
 	w.m.sweep(now.Add(1), now)
 	w.m.endStep()
-	obtained := 0
+	w.m.count("available_again_obligations_checked", len(w.m.oblig)) // pending when the drain starts
+	obtained, exhausted := 0, false
 	for i := 0; i < max(w.nAddr, w.nPfx)+2 && i < 40; i++ {
-		w.fresh++
-		c := w.newClient(fmt.Sprintf("F%d", w.fresh), byte(100+w.fresh))
+		c := w.freshClient()
 		w.msg(c, "SOLICIT", d6.MessageTypeSolicit, w.sid, false)
 		w.m.endStep()
 		if c.lastAddr == nil && c.lastPfx == nil {
+			exhausted = true
 			break
 		}
 		obtained++
 		w.msg(c, "REQUEST", d6.MessageTypeRequest, w.sid, false)
 		w.m.endStep()
 	}
+	if exhausted && obtained > 0 {
+		w.m.cycled("drain", obtained)
+	}
 	w.m.count("drain_clients_served", obtained)
-	w.m.count("available_again_obligations_checked", len(w.m.oblig))
 	w.m.finish("dhcpv6.Server.handleRelease", "dhcpv6.Server.leases")
 }
 
